@@ -208,6 +208,12 @@ let run_table_op (t : table ref) (tp : tops) (text : string) : string =
         let us = Stdlib.List.map (fun u -> (srt u.IM.ucols, nat 0)) tp.st.TO.tidx.IM.uhs in
         let ms = Stdlib.List.map (fun mh -> (srt mh.IM.mcols, nat (Stdlib.List.length mh.IM.mgroups))) tp.st.TO.tidx.IM.mhs in
         let sh = function Some (Some j) -> string_of_int (ofnat j) | Some None -> "-1" | None -> "UNINTERPRETED" in
+        (* round 9: the model of pvSelect / pvSelectRec run on the table model's index state must return as many rows as TableSpec *)
+        let pred = fst (parse_pred p) in
+        let ctm = tops_ct tp in
+        let n2 = Stdlib.List.length (SelectModel.pv_select to_reach ctm tp.st.TO.tidx tp.st.TO.trows (srt q) (eqs_of m vals)
+                                       (fun r -> evalp pred (ctm r))) in
+        (if n2 <> Stdlib.List.length ps then " !MODEL-PVSELECT " ^ string_of_int n2 else "") ^
         " f " ^ sh (ProtoRun.gen_fit_unique us ms (srt q)) ^ " " ^ sh (ProtoRun.gen_fit_multi us ms (srt q))
       end in
     Printf.sprintf "q %d %d%s" (Stdlib.List.length ps) (pos_digest ps) fit
